@@ -2,7 +2,7 @@
  * drv_fpx.c - conformance driver for the extension-field towers (C10).
  *
  * Case line:  <sel> <op> <alias> <args...>
- *   sel = P<id> (fp_param_set(id)) | E<curve name><d|m> (ep_param_set + ep2_curve_set_twist(D|M type):
+ *   sel = P<id> (fp_param_set(id)) | A (ep_param_set_any_pairf: curve and twist of a sweep build) | E<curve name><d|m> (ep_param_set + ep2_curve_set_twist(D|M type):
  *   the sparse multiplications of the pairing towers choose their pattern by the twist type) |
  *   D<hex> (fp_prime_set_dense, tiny worlds);
  *   op  = full function name (fp12_mul_lazyr, ...) or "tower <levels...>";
@@ -61,6 +61,10 @@ typedef int (*f_cmp)(void *, void *);
 typedef void (*f_sim)(void *, void *, int);
 typedef void (*f_zero)(void *);
 
+/* defined by the library, selected through the fp16_mul_dxs macro only */
+void fp16_mul_dxs_basic(fp16_t c, const fp16_t a, const fp16_t b);
+void fp16_mul_dxs_lazyr(fp16_t c, const fp16_t a, const fp16_t b);
+
 /* ---- wrapper generators (most of the API are macros selecting a variant) ---- */
 #define W_BIN(N, f) static void w##N##_##f(void *c, void *a, void *b) { fp##N##_##f((S##N *)c, (S##N *)a, (S##N *)b); }
 #define W_UN(N, f) static void w##N##_##f(void *c, void *a) { fp##N##_##f((S##N *)c, (S##N *)a); }
@@ -111,13 +115,14 @@ typedef void (*f_zero)(void *);
 	COMMON(X, 9) LAZY(X, 9) X(UNR2, 9, mul_unr) X(UNR1, 9, sqr_unr) X(BIN, 9, mul_dxs) X(SIM, 9, inv_sim) \
 	COMMON(X, 12) LAZY(X, 12) X(UNR2, 12, mul_unr) X(UNR1, 12, sqr_unr) X(BIN, 12, mul_dxs) X(BIN, 12, mul_dxs_basic) \
 	X(BIN, 12, mul_dxs_lazyr) CYC(X, 12) PCK(X, 12) X(EXPSIM, 12, exp_cyc_sim) \
-	COMMON(X, 16) LAZY(X, 16) CYC(X, 16) X(UN, 16, sqr_cyc) X(EXPSIM, 16, exp_cyc_sim) X(PRED, 16, is_sqr) X(ROOT, 16, srt) \
+	COMMON(X, 16) LAZY(X, 16) CYC(X, 16) X(UN, 16, sqr_cyc) X(EXPSIM, 16, exp_cyc_sim) X(BIN, 16, mul_dxs) \
+	X(BIN, 16, mul_dxs_basic) X(BIN, 16, mul_dxs_lazyr) X(PRED, 16, is_sqr) X(ROOT, 16, srt) \
 	X(SIM, 16, inv_sim) \
 	COMMON(X, 18) LAZY(X, 18) X(UNR2, 18, mul_unr) X(UNR1, 18, sqr_unr) X(BIN, 18, mul_dxs) X(BIN, 18, mul_dxs_basic) \
 	X(BIN, 18, mul_dxs_lazyr) CYC(X, 18) PCK(X, 18) X(EXPSIM, 18, exp_cyc_sim) \
-	COMMON(X, 24) LAZY(X, 24) CYC(X, 24) PCK(X, 24) X(EXPSIM, 24, exp_cyc_sim) \
-	COMMON(X, 48) LAZY(X, 48) CYC(X, 48) PCK(X, 48) \
-	COMMON(X, 54) LAZY(X, 54) CYC(X, 54) PCK(X, 54)
+	COMMON(X, 24) LAZY(X, 24) CYC(X, 24) PCK(X, 24) X(EXPSIM, 24, exp_cyc_sim) X(BIN, 24, mul_dxs) \
+	COMMON(X, 48) LAZY(X, 48) CYC(X, 48) PCK(X, 48) X(BIN, 48, mul_dxs) \
+	COMMON(X, 54) LAZY(X, 54) CYC(X, 54) PCK(X, 54) X(BIN, 54, mul_dxs)
 
 /* the unreduced variants write double-length accumulators */
 #define W_UNR2_(N, f) W_UNR2(N, DV##N, f)
@@ -194,6 +199,7 @@ static void hdr(const char *op, const char *f, int lvl, int al) {
 	vh_fp_hdr();
 	vh_int("pid", g_pid);
 	vh_int("tw", ep2_curve_is_twist());
+	vh_int("tw3", ep3_curve_is_twist());
 	vh_int("al", al);
 	vh_el("u2", g_u2, 2); vh_el("xi", g_xi, 2); vh_el("u3", g_u3, 3); vh_el("x3", g_x3, 3);
 }
@@ -556,6 +562,13 @@ static void ensure_field(const char *sel) {
 		VH_TRY(err, ep_param_set(id));
 		if (!err) VH_TRY(err, ep2_curve_set_twist(tw));
 		if (!err) g_pid = fp_param_get();
+	} else if (sel[0] == 'A') {
+		/* the pairing-friendly curve of this build with the twist type the library itself installs
+		 * (ep_param_set_any_pairf): the towers of the field-size sweep (k = 8, 16, 18, 24, 48) */
+		volatile int rc = RLC_ERR;
+		VH_TRY(err, rc = ep_param_set_any_pairf());
+		if (!err && rc != RLC_OK) err = 1;
+		if (!err) g_pid = fp_param_get();
 	} else if (sel[0] == 'D') {
 		bn_t p;
 		bn_null(p); bn_new(p);
@@ -634,6 +647,15 @@ static int list_params(void) {
 		VH_TRY(err, fp_param_set(id));
 		vh_code();
 		if (err == 0 && (ctx->prime.dp[0] & 1) && ctx->prime.used == RLC_FP_DIGS) list_line(id);
+	}
+	/* does the build offer a pairing-friendly curve of its own (selector A)?  "A <ok> <fp id> <embedding degree> <tw2> <tw3>" */
+	{
+		volatile int rc = RLC_ERR;
+		VH_TRY(err, rc = ep_param_set_any_pairf());
+		vh_code();
+		if (err == 0 && rc == RLC_OK)
+			printf("A 1 %d %d %d %d\n", fp_param_get(), ep_curve_embed(), ep2_curve_is_twist(), ep3_curve_is_twist());
+		else printf("A 0 0 0 0 0\n");
 	}
 	return 0;
 }
